@@ -19,15 +19,21 @@ coq/Makefile.coq: coq/_CoqProject
 coq: coq/Makefile.coq
 	cd coq && timeout 3000 $(MAKE) --no-print-directory -f Makefile.coq -j16 2>&1 | grep -v '^COQDEP\|^COQC' ; exit $${PIPESTATUS[0]}
 
+EXTRACT_PARTS := $(wildcard coq/extract/parts/*.txt)
+HANDLERS := $(sort $(wildcard ocaml/handlers/*.ml))
+
+coq/extract/Extract.v: $(EXTRACT_PARTS) coq/extract/gen_extract.py
+	python3 coq/extract/gen_extract.py
+
 ocaml/model.ml: coq/extract/Extract.v $(COQFILES) | coq
-	cd coq/extract && timeout 600 coqc -Q ../theories PGV -w -deprecated Extract.v > /dev/null
+	cd coq/extract && timeout 900 coqc -Q ../theories PGV -w -deprecated Extract.v > /dev/null
 	cp coq/extract/model.ml coq/extract/model.mli ocaml/
 
-ocaml/modelrun: ocaml/model.ml ocaml/modelrun.ml
-	cd ocaml && timeout 600 ocamlfind ocamlopt -w -a -package str model.mli model.ml modelrun.ml -o modelrun
+ocaml/modelrun: ocaml/model.ml ocaml/mr.ml ocaml/main.ml $(HANDLERS)
+	cd ocaml && timeout 900 ocamlfind ocamlopt -w -a -I handlers -package str model.mli model.ml mr.ml $(patsubst ocaml/%,%,$(HANDLERS)) main.ml -o modelrun
 
 modelrun: ocaml/modelrun
 
 clean:
 	-cd coq && $(MAKE) -f Makefile.coq clean
-	rm -f coq/Makefile.coq coq/Makefile.coq.conf coq/_CoqProject ocaml/model.ml ocaml/model.mli ocaml/modelrun ocaml/*.cm* ocaml/*.o
+	rm -f coq/Makefile.coq coq/Makefile.coq.conf coq/_CoqProject ocaml/model.ml ocaml/model.mli ocaml/modelrun ocaml/*.cm* ocaml/*.o ocaml/handlers/*.cm* ocaml/handlers/*.o coq/extract/Extract.v
